@@ -41,6 +41,15 @@ CHECKS = {
  'C19': dict(cat='proof', tech='deductive: typestate contracts with a ghost log of sent messages on the real ResponseFuture._set_result (UNPREPARED branch), _reprepare and _execute_after_prepare, callee contracts for pool/connection/executor',
              text='Each of the three functions that implement re-preparation is verified against its contract for all protocol versions, keyspace combinations, pool states and response kinds; the response-sequence (history) clause is the composition of these contracts (meta-argument, A-EXEC for the executor hop).',
              ref='DESIGN.md §4 C19'),
+ 'C16': dict(cat='proof', tech='deductive: postconditions over a ghost call log on the real ResponseFuture._set_result error branches / _handle_retry_decision / _retry with the retry policy as an arbitrary decision oracle; speculative gating through Session._create_response_future',
+             text='For each of the eight error kinds the policy is consulted exactly once with retry_num == retries so far and the failure description, and each of the four decisions (with any consistency level or None) has exactly its effect; the retry continuation itself is C17\'s _retry_task contract (A-EXEC).',
+             ref='DESIGN.md §4 C16'),
+ 'C17': dict(cat='proof', tech='deductive: postconditions over a ghost log on the real send_request/_query/_retry_task/_make_query_plan/start_fetching_next_page with callee contracts for pools and connections; plans of up to 3 hosts x 6 pool states enumerated',
+             text='Plan order, single attempt per host, recorded skip reasons and NoHostAvailable only after exhaustion are postconditions checked for every plan of up to 3 hosts and every combination of per-host pool state (unrolled - stated bound; the per-host step does not depend on the position).',
+             ref='DESIGN.md §4 C17'),
+ 'C46': dict(cat='proof', tech='deductive: symbolic option lattice through the real Session._create_response_future, message constructors and BoundStatement.__init__',
+             text='Every option (consistency, serial consistency, retry policy, timeout, fetch size, row factory, load balancer, timestamp, keyspace, speculative plan) is checked against first_not_none(statement, profile | session) with all set/unset combinations symbolic, both configuration modes, three statement kinds, all protocol versions; wire encoding of those fields is C03.',
+             ref='DESIGN.md §4 C46'),
 }
 
 NA_REASON = {}
